@@ -687,12 +687,31 @@ func c16RegisterB(s *mcp.Server, seen *[]string, mu *sync.Mutex) {
 	})
 }
 
+type c16PtrOut struct {
+	Name string `json:"name"`
+	N    int    `json:"n"`
+}
+
+func c16RegisterPtr(s *mcp.Server, ret **c16PtrOut) {
+	mcp.AddTool(s, &mcp.Tool{Name: "p"}, func(ctx context.Context, req *mcp.CallToolRequest, _ struct{}) (*mcp.CallToolResult, *c16PtrOut, error) {
+		return nil, *ret, nil
+	})
+}
+
 func runC16Cache(c *vh.Case) {
 	r := c.R
 	ctx := context.Background()
 	var mu sync.Mutex
 	var seen []string
-	server := mcp.NewServer(&mcp.Implementation{Name: "s", Version: "1"}, &mcp.ServerOptions{SchemaCache: mcp.NewSchemaCache()})
+	cache := mcp.NewSchemaCache()
+	var ptrRet *c16PtrOut
+	if r.Bool() {
+		// the server-per-request pattern: an earlier server has registered the same tools through the same cache
+		earlier := mcp.NewServer(&mcp.Implementation{Name: "earlier", Version: "1"}, &mcp.ServerOptions{SchemaCache: cache})
+		c16RegisterPtr(earlier, &ptrRet)
+	}
+	server := mcp.NewServer(&mcp.Implementation{Name: "s", Version: "1"}, &mcp.ServerOptions{SchemaCache: cache})
+	c16RegisterPtr(server, &ptrRet)
 	if r.Bool() {
 		c16RegisterA(server, &seen, &mu)
 		c16RegisterB(server, &seen, &mu)
@@ -723,6 +742,25 @@ func runC16Cache(c *vh.Case) {
 		{"a", map[string]any{}, false, ""},
 	}
 	r.Shuffle(len(cases), func(i, j int) { cases[i], cases[j] = cases[j], cases[i] })
+	// a pointer output type with an inferred schema: a nil pointer stands for the zero value
+	for _, ret := range []*c16PtrOut{nil, {Name: "x", N: 3}, nil} {
+		ptrRet = ret
+		want := c16PtrOut{}
+		if ret != nil {
+			want = *ret
+		}
+		res, err := pair.CS.CallTool(ctx, &mcp.CallToolParams{Name: "p", Arguments: map[string]any{}})
+		if err != nil || res.IsError {
+			c.Violate("valid-output-rejected", "tool p (output type *struct, inferred schema, shared SchemaCache) returned %+v; the call failed: %v %s", ret, err, vh.JSON(res))
+			return
+		}
+		gotSC, _ := json.Marshal(res.StructuredContent)
+		wantSC, _ := json.Marshal(want)
+		if !jsonEqual(gotSC, wantSC) {
+			c.Violate("structured-content-differs", "tool p returned %+v; structured content %s, expected %s", ret, gotSC, wantSC)
+			return
+		}
+	}
 	c.SetSpec(map[string]any{"mode": "same-named-types+cache", "n": n})
 	for _, k := range cases {
 		mu.Lock()
